@@ -17,6 +17,7 @@ import (
 	"google.golang.org/protobuf/types/known/structpb"
 	"k8s.io/apimachinery/pkg/apis/meta/v1/unstructured"
 	"k8s.io/apimachinery/pkg/runtime"
+	"k8s.io/apimachinery/pkg/runtime/schema"
 
 	fnv1 "github.com/crossplane/crossplane/apis/apiextensions/fn/proto/v1"
 	"github.com/crossplane/crossplane/verifh/kit"
@@ -55,10 +56,13 @@ type perturbation struct {
 }
 
 type pcase struct {
-	Initial   []string        `json:"initial"`
-	Steps     []stepBehaviour `json:"steps"`
-	Perturb   []perturbation  `json:"perturb,omitempty"`
-	ObserveErr bool           `json:"observeErr,omitempty"` // inject a read error into the observer
+	Initial    []string        `json:"initial"`
+	Steps      []stepBehaviour `json:"steps"`
+	Perturb    []perturbation  `json:"perturb,omitempty"`
+	ObserveErr bool            `json:"observeErr,omitempty"` // inject a read error into the observer
+	// BehindCache: the controller's cache does not hold the composed resources (yet), so the
+	// observer falls back to uncached reads; with ObserveErr the injected error hits that fallback
+	BehindCache bool `json:"behindCache,omitempty"`
 	// Flip lists resource names that the reconcile under test desires at apiVersion v2 although
 	// they were composed at v1 (same kind: the name keeps its kind, as the quantifier requires)
 	Flip []string `json:"flipVersion,omitempty"`
@@ -137,9 +141,10 @@ func genCase(c *kit.Ctx, i int) pcase {
 			p.Perturb = append(p.Perturb, perturbation{Name: n, What: []string{"missing", "terminating", "foreign", "uncontrolled"}[r.IntN(4)]})
 		}
 	}
-	if failAt < 0 && r.IntN(8) == 0 {
+	if failAt < 0 && r.IntN(6) == 0 {
 		p.ObserveErr = true
 	}
+	p.BehindCache = r.IntN(4) == 0
 	for _, n := range p.Initial {
 		if r.IntN(5) == 0 {
 			p.Flip = append(p.Flip, n)
@@ -259,9 +264,10 @@ func (w *worker) program(step int, req *fnv1.RunFunctionRequest) (*fnv1.RunFunct
 	case "error":
 		return nil, errors.New("scripted function error")
 	case "fatal":
-		rsp.Results = []*fnv1.Result{{Severity: fnv1.Severity_SEVERITY_FATAL, Message: "scripted fatal"}}
+		// the fatal result repeats, word for word, a non-fatal result of this and of earlier steps
+		rsp.Results = []*fnv1.Result{{Severity: fnv1.Severity_SEVERITY_NORMAL, Message: "scripted result"}, {Severity: fnv1.Severity_SEVERITY_FATAL, Message: "scripted result"}}
 	case "warning":
-		rsp.Results = []*fnv1.Result{{Severity: fnv1.Severity_SEVERITY_WARNING, Message: "scripted warning"}}
+		rsp.Results = []*fnv1.Result{{Severity: fnv1.Severity_SEVERITY_WARNING, Message: "scripted result"}}
 	case "reqNever":
 		rsp.Requirements = reqName(round)
 	case "reqNeverLabels":
@@ -302,7 +308,15 @@ func (w *worker) runCase(i int, name string) {
 	world := w.base.Clone()
 	comp := fmt.Sprintf("comp%d", len(p.Steps))
 	world.MustSeed("user", xrk.XRObject("ex.org/v1", "XThing", "xr1", comp, map[string]any{"size": int64(1)}))
-	env := xrk.NewXREnv(world, xrk.XRDTyped(w.xrd))
+	lagging := false
+	cached := world.LaggingClient("xr", func(gk schema.GroupKind) (int64, bool) {
+		if lagging && gk.Group == "nop.ex.org" {
+			return 1 << 40, true // the cache has seen none of the composed resources
+		}
+		return 0, false
+	})
+	uncached := world.Client("xr")
+	env := xrk.NewXREnvSplit(world, xrk.XRDTyped(w.xrd), cached, uncached)
 	defer env.CloseConns()
 	for k := 0; k < 2; k++ {
 		if _, err, _ := env.Reconcile("xr1"); err != nil {
@@ -378,19 +392,26 @@ func (w *worker) runCase(i int, name string) {
 	}
 	w.mu.Unlock()
 
+	lagging = p.BehindCache
 	if p.ObserveErr {
 		done := false
-		env.C.FaultFn = func(_ int, verb string, k sim.Key) sim.Outcome {
+		ff := func(_ int, verb string, k sim.Key) sim.Outcome {
 			if !done && verb == "get" && isComposedKind(k) {
 				done = true
 				return sim.ServerError
 			}
 			return sim.OK
 		}
+		if p.BehindCache {
+			uncached.FaultFn = ff // the cached read misses; the uncached fallback fails
+		} else {
+			env.C.FaultFn = ff
+		}
 	}
 	from := world.LogLen()
 	_, rerr, _ := env.Reconcile("xr1")
-	env.C.FaultFn = nil
+	env.C.FaultFn, uncached.FaultFn = nil, nil
+	lagging = false
 	log := world.Log(from)
 
 	fail, failStep, failKind := p.failing()
